@@ -57,17 +57,18 @@ def run(ck: Checker):
     ct.check_repeats(ck, table, 'C05.TPL')
     ck.floor('C05.TPL', 40)
 
-    # ---- C05.ALLOC / UNIT ------------------------------------------------
-    _alloc_and_unit(ck, mod, fn)
-
-    # ---- C05.SAT ---------------------------------------------------------
-    _sat(ck)
-
-    # ---- C05.FOLD (last: an uninterpretable rewrite of the driver is reported by the shape rules above first)
+    # ---- C05.FOLD / C05.SAT folds: they decide the driver and the query end to end -------------------------------
     ck.rule('C05.FOLD', 'tseytin_transformation folded as a whole over a family of model circuits and output selections; each clause set decided against the circuit for every input assignment (inputs = variables 1..n, satisfiable iff the selected outputs are True, every variable determined)')
     from .. import passes
     passes.fold_tseytin(ck, 'C05.FOLD')
     ck.floor('C05.FOLD', 1)
+    ck.rule('C05.SAT', 'is_circuit_satisfiable = is_satisfiable(Cnf.from_circuit(circuit)) folded end to end with a model solver (exhaustive search): True exactly when some assignment makes all outputs True, the returned model satisfies the clauses and projects onto such an assignment; structural plumbing rules where the code is written the known way')
+    passes.fold_sat_query(ck, 'C05.SAT')
+    # ---- structural rules about the driver and the plumbing: they speak where they recognise the code ---------------
+    with ck.soft('C05.FOLD'):
+        _alloc_and_unit(ck, mod, fn)
+    with ck.soft('C05.SAT (fold of the query with a model solver)'):
+        _sat(ck)
 
 
 def _find_nested(mod, fn, name):
